@@ -262,7 +262,8 @@ def rule_averages(r):
     shared with C01 (carry/reset pairing of the accumulators in every generated kernel) and restated here because a
     mis-carried R_eff or volume sum changes S's inputs only for meshes that span several kernel invocations."""
     from .. import cfront
-    res = cfront.map_units("sa.rules.c01:analyse_unit")
+    from . import c01
+    res = c01._c_results()
     n = 0
     for unit, rows in sorted(res.items()):
         for row in rows:
@@ -284,6 +285,10 @@ RULES = [
     ("R-C07-reported", 9, "reported intermediates are the values used", rule_reported),
     ("R-C07-guards", 9, "structural guards on S", rule_guards),
 ]
+
+
+from . import shared
+RULES = RULES + shared.bundle('C07', ['gate', 'restart', 'driver', 'values', 'stride', 'maxpd', 'norm'], ['product', 'details', 'kernel'])
 
 
 def run(tier="quick", replay=None):
